@@ -41,7 +41,7 @@ def run_case(case, extdir):
     kernels.EXTDIR = extdir
     out = dict(case=case.name, descr=case.descr, paths=[], obligations=0, discharged=0, nontrivial=0,
                unknown=0, candidates=[], violations=[], nonrepro=[], aborted=[], refused=0,
-               witness=None, witness_ok=None, remaining=0, stats={}, samples=[])
+               witness=None, witness_ok=None, remaining=0, stats={}, samples=[], harness_errors=[])
     if not case.concrete_only:
         sx.bind(*case.bind)
         kernels.activate('sym', case.kernels)
@@ -54,6 +54,8 @@ def run_case(case, extdir):
         for pr in results:
             if pr.status.startswith('abort'):
                 out['aborted'].append(pr.status[:200])
+            if pr.status.startswith('harness-exc'):
+                out['harness_errors'].append(pr.status[:300])
             if pr.status.startswith('refused'):
                 out['refused'] += 1
             for name, res, model in pr.obligations:
@@ -85,6 +87,7 @@ def run_case(case, extdir):
         bad = [n for n, ok in res if not ok]
         out['witness_ok'] = (st == 'ok' and not bad) if not case.concrete_only else (st == 'ok' and not bad)
         out['witness_status'] = st
+        if st.startswith('harness-exc'): out['harness_errors'].append('witness replay: ' + st[:300])
         if st.startswith('exc') or bad:
             # the real code violates an obligation (or raises) on a concrete input
             out['violations'].append(dict(obligation=(bad[0] if bad else 'no_unexpected_exception'), inputs=witness,
@@ -294,7 +297,11 @@ def report(pid, tier, seed, mod, cases, results, wall, a):
         for r in good:
             print('  ', r['case'], r.get('npaths'), r['obligations'], r['discharged'], r['unknown'], r.get('path_status'), r.get('wall_s'), r['aborted'][:2], [(n['obligation'][:60], n['reason'][:80]) for n in r['nonrepro'][:2]])
         for e in errors: print('  ERROR', e['case'], e['error'], e.get('tb', '')[-1500:])
+    herr = [(r['case'], r['harness_errors'][0]) for r in good if r.get('harness_errors')]
     if nviol: return 1
+    if herr:
+        print(f'HARNESS-ERROR property={pid} harness exceptions: {herr[:5]}')
+        return 3
     if errors or vacuous:
         print(f'HARNESS-ERROR property={pid} errors={[e["case"] for e in errors]} vacuous={vacuous}')
         return 3
